@@ -9,6 +9,8 @@ package sim
 import (
 	"context"
 	"errors"
+	"runtime"
+	"strings"
 	"sync"
 
 	"github.com/yorkie-team/yorkie/api/types"
@@ -39,6 +41,7 @@ type FaultDB struct {
 	fired   *Fault
 
 	parkName string        // the next call of this name blocks ...
+	parkFrom string        // ... if this function is on its call stack ("" = whoever calls) ...
 	parkGo   chan struct{} // ... until this is closed
 	parkAt   chan struct{} // closed when the call has been reached
 }
@@ -46,8 +49,15 @@ type FaultDB struct {
 // ParkAt makes the next intercepted call named name block until release is called; reached is
 // closed when a handler has arrived there.
 func (f *FaultDB) ParkAt(name string) (reached <-chan struct{}, release func()) {
+	return f.ParkAtFrom(name, "")
+}
+
+// ParkAtFrom is ParkAt for the next call of that name made (directly or not) by the function whose
+// qualified name contains from, e.g. "packs.storeSnapshot": the calls other code makes pass.
+func (f *FaultDB) ParkAtFrom(name, from string) (reached <-chan struct{}, release func()) {
 	f.mu.Lock()
 	defer f.mu.Unlock()
+	f.parkFrom = from
 	f.parkName, f.parkGo, f.parkAt = name, make(chan struct{}), make(chan struct{})
 	goCh := f.parkGo
 	var once sync.Once
@@ -66,6 +76,10 @@ func (f *FaultDB) ParkAt(name string) (reached <-chan struct{}, release func()) 
 func (f *FaultDB) maybePark(name string) {
 	f.mu.Lock()
 	if f.parkName != name {
+		f.mu.Unlock()
+		return
+	}
+	if f.parkFrom != "" && !calledFrom(f.parkFrom) {
 		f.mu.Unlock()
 		return
 	}
@@ -138,6 +152,7 @@ func (f *FaultDB) FindClientInfoByRefKey(ctx context.Context, refKey types.Clien
 }
 
 func (f *FaultDB) FindDocInfoByRefKey(ctx context.Context, refKey types.DocRefKey) (*database.DocInfo, error) {
+	f.maybePark("FindDocInfoByRefKey")
 	b, a := f.hit("FindDocInfoByRefKey")
 	if b {
 		return nil, ErrInjected
@@ -250,4 +265,20 @@ func (f *FaultDB) CreateSnapshotInfo(ctx context.Context, docRefKey types.DocRef
 		return ErrInjected
 	}
 	return err
+}
+
+// calledFrom reports whether a function whose qualified name contains name is on the call stack.
+func calledFrom(name string) bool {
+	pcs := make([]uintptr, 48)
+	n := runtime.Callers(3, pcs)
+	frames := runtime.CallersFrames(pcs[:n])
+	for {
+		fr, more := frames.Next()
+		if strings.Contains(fr.Function, name) {
+			return true
+		}
+		if !more {
+			return false
+		}
+	}
 }
